@@ -82,4 +82,71 @@ theorem edgeBlocked_false_sound (poly : Poly) (r : Reg)
     rw [this] at hb
     exact Bool.noConfusion hb
 
+open AdaptaVerif.Lemmas.Route (rectPoly strictlyInside_rect_iff) in
+open AdaptaVerif.Spec.Route (SegHits StrictlyInside) in
+/-- rectangles: the conclusion in terms of the C03 specification `SegHits` (either orientation) -/
+theorem edgeBlocked_false_sound_rect (x0 y0 x1 y1 : Rat) (hx : x0 < x1) (hy : y0 < y1) (r : Reg)
+    (hb : edgeBlocked (rectPoly x0 y0 x1 y1) r = false)
+    (ha : ¬ StrictlyInside (rectPoly x0 y0 x1 y1) r.pu) (hb' : ¬ StrictlyInside (rectPoly x0 y0 x1 y1) r.pv)
+    (hnov : ∀ v ∈ rectPoly x0 y0 x1 y1, ∀ t : Rat, 0 < t → t < 1 → lerp r.pu r.pv t ≠ v) :
+    ¬ SegHits (rectPoly x0 y0 x1 y1) r.pu r.pv := by
+  rintro ⟨tm, h0, h1, hin⟩
+  have hmem : ∀ e, e ∈ rectEdges x0 y0 x1 y1 ↔ e ∈ polyEdges (rectPoly x0 y0 x1 y1) := by
+    intro e; rw [← edges_rect]; exact edges_mem_iff _ e
+  have hB : BoundaryChar (polyEdges (rectPoly x0 y0 x1 y1)) :=
+    boundaryChar_congr _ _ hmem (rect_boundaryChar x0 y0 x1 y1 hx hy)
+  have pos_iff : ∀ P : Pt, (∀ e ∈ polyEdges (rectPoly x0 y0 x1 y1), 0 < F e P) ↔
+      x0 < P.x ∧ P.x < x1 ∧ y0 < P.y ∧ P.y < y1 := by
+    intro P
+    rw [← rect_pos_iff x0 y0 x1 y1 hx hy]
+    exact ⟨fun h e he => h e ((hmem e).mp he), fun h e he => h e ((hmem e).mpr he)⟩
+  rw [strictlyInside_rect_iff x0 y0 x1 y1 hx hy] at hin ha hb'
+  have notin : ∀ p : Pt, ¬ (x0 < p.x ∧ p.x < x1 ∧ y0 < p.y ∧ p.y < y1) →
+      ∃ e ∈ polyEdges (rectPoly x0 y0 x1 y1), F e p ≤ 0 := by
+    intro p hp
+    by_contra hne
+    apply hp
+    rw [← pos_iff]
+    intro e he
+    by_contra hle
+    exact hne ⟨e, he, not_lt.mp hle⟩
+  have hne : r.pu ≠ r.pv := by
+    intro he
+    have : lerp r.pu r.pv tm = r.pu := by
+      unfold lerp; rw [← he]; cases r.pu; simp
+    rw [this] at hin
+    exact ha hin
+  have strict_of_inPoly : ∀ p : Pt, inPoly (rectPoly x0 y0 x1 y1) p false = true →
+      x0 < p.x ∧ p.x < x1 ∧ y0 < p.y ∧ p.y < y1 := by
+    intro p hi
+    rw [← pos_iff]
+    intro e he
+    have := ((inPoly_iff (rectPoly x0 y0 x1 y1) p).2.mp hi) e ((edges_mem_iff _ e).mpr he)
+    exact this
+  have hnoex : ((r.u.isConn && inPoly (rectPoly x0 y0 x1 y1) r.pu false) ||
+      (r.v.isConn && inPoly (rectPoly x0 y0 x1 y1) r.pv false)) = false := by
+    rw [Bool.or_eq_false_iff]
+    constructor
+    · cases hu : r.u.isConn
+      · rfl
+      · cases hi : inPoly (rectPoly x0 y0 x1 y1) r.pu false
+        · rfl
+        · exact absurd (strict_of_inPoly _ hi) ha
+    · cases hv : r.v.isConn
+      · rfl
+      · cases hi : inPoly (rectPoly x0 y0 x1 y1) r.pv false
+        · rfl
+        · exact absurd (strict_of_inPoly _ hi) hb'
+  unfold edgeBlocked at hb
+  rw [if_neg hne, hnoex] at hb
+  simp only [Bool.false_eq_true, if_false] at hb
+  have := shapeBlocksGo_of_interior (polyEdges (rectPoly x0 y0 x1 y1)) hB r.pu r.pv tm h0 h1 ((pos_iff _).mpr hin)
+    (notin _ ha) (notin _ hb')
+    (by
+      intro e he t ht0 ht1
+      have hv := polyEdges_mem_vertices _ e he
+      exact ⟨hnov _ hv.1 t ht0 ht1, hnov _ hv.2 t ht0 ht1⟩)
+  rw [this] at hb
+  exact Bool.noConfusion hb
+
 end AdaptaVerif.Lemmas.RerouteGeom
